@@ -147,7 +147,13 @@ def run(chk):
         n = rng.randrange(4, 11)
         p = rng.choice([0.3, 0.5, 0.7, 0.9])
         es = [(a, b) for a, b in itertools.combinations(range(n), 2) if rng.random() < p]
-        traces.append(execute({"nodes": list(range(n)), "edges": es, "limit": rng.choice([-1, 0, 2, 3, 4, 5, 7]),
+        ids = list(range(n))
+        if i % 3 == 1:          # sparse multi-digit vertex ids (ids need not be 0..N-1)
+            ids = sorted(rng.sample(range(3, 1000), n))
+        elif i % 3 == 2:        # ids on a stride, inserted in another order
+            ids = [7 + 11 * k for k in range(n)]
+            rng.shuffle(ids)
+        traces.append(execute({"nodes": ids, "edges": [(ids[a], ids[b]) for a, b in es], "limit": rng.choice([-1, 0, 2, 3, 4, 5, 7]),
                                "rng": ("seed", rng.randrange(1 << 30))}))
     from . import stub
     for i in range(100 if thorough else 25):
